@@ -18,6 +18,7 @@ def sh(cmd, **kw):
 
 
 def main():
+    os.environ["PV_NO_SHRINK"] = "1"   # the verdict is what counts here; shrinking is most of the time of a failing check
     want = sys.argv[1:]
     names = sorted(d for d in os.listdir(os.path.join(VERIF, "seeded")) if os.path.isdir(os.path.join(VERIF, "seeded", d)))
     if want:
